@@ -37,7 +37,7 @@ def _plan(thorough):
         if not thorough:
             plan += [(uni, 'set', m, 4, False) for m in inits]
             plan += [(uni, 'map', m, 3, True) for m in inits]
-            if uni in COMPOSITE_FOCUS[:6]:
+            if uni in COMPOSITE_FOCUS[2:6]:
                 plan.append((uni, 'map', 'empty', 4, True))
         else:
             plan += [(uni, 'set', m, 6, False) for m in inits]
@@ -67,7 +67,7 @@ def run_R(ck):
     ck.bound('C14_key_universes', {k: [repr(x) for x in v[1]] for k, v in H.UNIVERSES.items()})
     ck.bound('C14_history_length', {
         'quick': 'sets: all histories <= 4 over {add, remove} x keys; maps: all <= 3 over {UPDATE Some/None, GET_AND_UPDATE Some/None} x keys + MAP '
-                 '(<= 4 from the empty map for 6 key types); 3 initial collections each; all 23 key universes',
+                 '(<= 4 from the empty map for 4 key types); 3 initial collections each; all 23 key universes',
         'thorough': 'sets: all histories <= 6; maps: all <= 4 (2 initial collections), <= 5 from the empty map and <= 6 over UPDATE only for 8 key types'}[ck.tier])
     ck.bound('C14_literals', 'every key sequence of length 0..3 over the universe, as set and as map literal')
     ck.rule('C14-R: every history of mutating instructions up to the stated length from every initial collection (EMPTY_* instruction, '
